@@ -25,6 +25,10 @@ CHECKS = {
          'Static analysis of the Popen and NOOP executors: on every path of cancel_task, of one watcher iteration plus the bulk finish, of the per-task error handlers, of the NOOP collector and of the late-cancel path, unschedule publications equal hand-ons in {0,1} with the outcome recorded first; both contenders (cancel, watcher) reach their finish effects only through a locked test-and-remove on the same registry with the same lock; registration precedes launch; execution start is announced once per bulk; the process handle precedes the watch queue and the late cancel check; the timeout watcher goes through cancel_task. Argues exactly-once by lock discipline and single removal, not by exploring thread schedules.',
          'Trusted: effect calls atomic; is_canceled hands on CANCELED exactly when true. Not decided: real thread schedules; Flux/Dragon executors. Known finding K2 (late cancel double hand-on).',
          'DESIGN.md section 5 / C07'),
+ 'C08': ('dependence of every removal/kill on the request uids, guard polarity of membership tests and filters, publisher/handler key-set agreement',
+         'Static analysis of the cancel path: the cancel list grows only by arg[uids] of cancel_tasks messages; is_canceled reports and hands on only the given task when its uid is in the list; the intake filter keeps exactly the not-canceled things; the scheduler forwards the uids to its process, removes waiting tasks keyed by the requested uid together with their CANCELED report, filters the raptor backlog by uid; the executor cancels only get_task(uid) for requested uids; cancel_task kills the pid of the task it was given, frees once (arbitration R07.2) and records CANCELED; keys read by handlers are written by the publisher which sets fwd=True. Decides selection-by-uid and polarity at every site, not global delivery histories.',
+         'Trusted: uids unique; pubsub delivers the control message. Not decided: whether os.killpg reaches the processes; timing of arrival beyond the per-stage rules.',
+         'DESIGN.md section 5 / C08'),
 }
 PENDING = 'check not built yet in this round (static rules designed in DESIGN.md section 5); not claimed until the checker exists'
 NA = {}
